@@ -615,3 +615,113 @@ Proof.
       destruct (_ =? 0); [reflexivity|]. destruct (collect _ _ _); reflexivity.
     + reflexivity.
 Qed.
+
+(* ------------------------------------------------------------------ instrumented walker *)
+(* [walkA] is [walk] with two ghost counters: the number of successful pointer dereferences
+   (Struct.Ptr / PointerList.At returning a valid pointer) and the sum of the read sizes of
+   the pointers handed out.  [walkA_erase] shows that dropping the counters gives [walk]. *)
+Record acc (A : Type) := mkAcc { ac_val : A; ac_rl : Z; ac_d : Z; ac_h : Z }.
+Arguments mkAcc {A}. Arguments ac_val {A}. Arguments ac_rl {A}. Arguments ac_d {A}. Arguments ac_h {A}.
+
+Fixpoint iter_acc {A} (n : nat) (i rl : Z) (f : Z -> Z -> acc A) : acc (list A) :=
+  match n with
+  | O => mkAcc [] rl 0 0
+  | S n' => let a := f i rl in
+            let r := iter_acc n' (i + 1) (ac_rl a) f in
+            mkAcc (ac_val a :: ac_val r) (ac_rl r) (ac_d a + ac_d r) (ac_h a + ac_h r)
+  end.
+
+Definition deref_count (r : res Ptr) : Z := match r with Ok q => if p_valid q then 1 else 0 | _ => 0 end.
+Definition deref_size (r : res Ptr) : Z := match r with Ok q => readSize q | _ => 0 end.
+
+(* one dereference followed by the walk of its result *)
+Definition deref_then (x : res Ptr * Z) (k : Z -> res Ptr -> acc tree) : acc tree :=
+  let a := k (snd x) (fst x) in
+  mkAcc (ac_val a) (ac_rl a) (deref_count (fst x) + ac_d a) (deref_size (fst x) + ac_h a).
+
+Fixpoint walkA (c : config) (fx : fixes) (m : segs) (dcap pcap : Z) (fuel : nat) (rl : Z) (r : res Ptr)
+  : acc tree :=
+  match r with
+  | Err => mkAcc TErr rl 0 0
+  | Panic => mkAcc TPanic rl 0 0
+  | Ok p =>
+    if negb (p_valid p) then mkAcc TNull rl 0 0 else
+    match fuel with
+    | O => mkAcc TFuel rl 0 0
+    | S f =>
+      match p_kind p with
+      | KIface => mkAcc (TCap (p_len p)) rl 0 0
+      | KStruct =>
+        match collect (cap_count (DataSize (p_size p)) dcap) (fun o => struct_uint m p o 1) 0 with
+        | Panic => mkAcc TPanic rl 0 0 | Err => mkAcc TErr rl 0 0
+        | Ok data =>
+          let a := iter_acc (cap_count (PointerCount (p_size p)) pcap) 0 rl
+                     (fun i rl0 => deref_then (struct_ptr c m rl0 p i) (walkA c fx m dcap pcap f)) in
+          mkAcc (TStruct data (ac_val a)) (ac_rl a) (ac_d a) (ac_h a)
+        end
+      | KList =>
+        let n := cap_count (p_len p) pcap in
+        if p_bit p then
+          match collect n (fun i => bitlist_at (fx_bit fx) m p i) false with
+          | Ok bs => mkAcc (TBits (p_len p) bs) rl 0 0 | Err => mkAcc TErr rl 0 0 | Panic => mkAcc TPanic rl 0 0
+          end
+        else if p_comp p then
+          let a := iter_acc n 0 rl
+                     (fun i rl0 => walkA c fx m dcap pcap f rl0 (list_struct (fx_depth fx) p i)) in
+          mkAcc (TComp (p_len p) (p_size p) (ac_val a)) (ac_rl a) (ac_d a) (ac_h a)
+        else if 0 <? PointerCount (p_size p) then
+          let a := iter_acc n 0 rl
+                     (fun i rl0 => deref_then (ptrlist_at c (fx_upgrade fx) m rl0 p i) (walkA c fx m dcap pcap f)) in
+          mkAcc (TPtrs (p_len p) (ac_val a)) (ac_rl a) (ac_d a) (ac_h a)
+        else
+          let w := DataSize (p_size p) in
+          if w =? 0 then mkAcc (TPrim 0 (p_len p) []) rl 0 0 else
+          match collect n (fun i => list_uint_at (fx_upgrade fx) m p i w) 0 with
+          | Ok vs => mkAcc (TPrim w (p_len p) vs) rl 0 0 | Err => mkAcc TErr rl 0 0 | Panic => mkAcc TPanic rl 0 0
+          end
+      end
+    end
+  end.
+
+Lemma iter_acc_erase {A} (fa : Z -> Z -> acc A) (f : Z -> Z -> A * Z) :
+  (forall j rl0, (ac_val (fa j rl0), ac_rl (fa j rl0)) = f j rl0) ->
+  forall n i rl, (ac_val (iter_acc n i rl fa), ac_rl (iter_acc n i rl fa)) = iter_rl n i rl f.
+Proof.
+  intros H. induction n as [|n IH]; intros i rl; cbn [iter_acc iter_rl]; [reflexivity|]. cbv zeta.
+  cbn [ac_val ac_rl]. rewrite <- (H i rl). rewrite <- (IH (i + 1) (ac_rl (fa i rl))). reflexivity.
+Qed.
+
+Lemma walkA_erase c fx m dcap pcap : forall fuel rl r,
+  (ac_val (walkA c fx m dcap pcap fuel rl r), ac_rl (walkA c fx m dcap pcap fuel rl r)) =
+  walk c fx m dcap pcap fuel rl r.
+Proof.
+  induction fuel as [|f IH]; intros rl r.
+  - destruct r as [p| |]; cbn [walk walkA]; try reflexivity. destruct (negb (p_valid p)); reflexivity.
+  - destruct r as [p| |]; cbn [walk walkA]; try reflexivity.
+    destruct (negb (p_valid p)); [reflexivity|].
+    destruct (p_kind p).
+    + destruct (collect _ _ _); try reflexivity. cbv zeta. cbn [ac_val ac_rl].
+      match goal with |- context [iter_acc ?n ?i ?rl ?ga] =>
+        match goal with |- context [iter_rl n i rl ?g] =>
+          pose proof (iter_acc_erase ga g) as He end end.
+      rewrite <- He; [reflexivity|].
+      intros j rl0. unfold deref_then. cbv zeta. cbn [ac_val ac_rl].
+      destruct (struct_ptr c m rl0 p j) as [q rl1]. cbn [fst snd]. apply IH.
+    + cbv zeta. destruct (p_bit p); [destruct (collect _ _ _); reflexivity|].
+      destruct (p_comp p).
+      { cbn [ac_val ac_rl].
+        match goal with |- context [iter_acc ?n ?i ?rl ?ga] =>
+          match goal with |- context [iter_rl n i rl ?g] =>
+            pose proof (iter_acc_erase ga g) as He end end.
+        rewrite <- He; [reflexivity|]. intros j rl0. apply IH. }
+      destruct (0 <? PointerCount (p_size p)).
+      { cbn [ac_val ac_rl].
+        match goal with |- context [iter_acc ?n ?i ?rl ?ga] =>
+          match goal with |- context [iter_rl n i rl ?g] =>
+            pose proof (iter_acc_erase ga g) as He end end.
+        rewrite <- He; [reflexivity|].
+        intros j rl0. unfold deref_then. cbv zeta. cbn [ac_val ac_rl].
+        destruct (ptrlist_at c (fx_upgrade fx) m rl0 p j) as [q rl1]. cbn [fst snd]. apply IH. }
+      destruct (_ =? 0); [reflexivity|]. destruct (collect _ _ _); reflexivity.
+    + reflexivity.
+Qed.
